@@ -41,6 +41,7 @@ McKeyFails(e) ==
 Fails(e) == CASE e.ev = "alstream" -> StreamFails(e)
               [] e.ev = "aldec" -> DecFails(e)
               [] e.ev = "mckey" -> McKeyFails(e)
+              [] e.ev = "hang" -> <<e.prop \o ".hang">>    \* a call that never returned (recorded by the watchdog of the harness)
               [] OTHER -> <<"unknown-event">>
 Init == l = 1 /\ nfail = 0
 Next == /\ l <= Len(Tr)
